@@ -136,6 +136,11 @@ pub fn families() -> Vec<(Gram, Vec<&'static str>)> {
         (Gram::Lark("start: (\"a\" | \"ab\" | \"abc\")+ \"!\"\n".into()), vec!["aababc!", "abca!", "bc!"]),
         (Gram::Lark("start: e\ne: e \"+\" t | t\nt: t \"*\" f | f\nf: \"(\" e \")\" | N\nN: /[0-9]+/\n".into()), vec!["1+2*(3+4)", "12*3", ")*(", "+1"]),
         (Gram::Lark("start: W (\" \" W)*\nW: /[a-z]+/\n%ignore /\\t/\n".into()), vec!["ab cd e", "\tab", "b c"]),
+        // forced text that ends the grammar (accepting right after the forced stretch)
+        (Gram::Lark("start: \"abc\"\n".into()), vec!["abc", "bc"]),
+        (Gram::Lark("start: /[a-z]+/ \"=done\"\n".into()), vec!["xy=done", "=do", "ne"]),
+        (Gram::Json(json!({"const":"ok"})), vec!["\"ok\"", "ok"]),
+        (Gram::Regex("(foo|bar)baz".into()), vec!["foobaz", "barbaz", "obaz"]),
     ]
 }
 
